@@ -13,6 +13,10 @@ spec grammar (nested lists):
   ["R", n] reference to alias slot n (shared reference, or a cycle when used inside its own definition)
   ["Z", kind, size, seedint] big payload: kind in bytes|str|list of that size
   ["d", "1.5"|"NaN"] decimal.Decimal
+  numpy values (numpy is imported when the first of them is built):
+  ["t", descr] numpy dtype (descr: a string, or a nested list for structured dtypes, see gen_np.np_dtype)
+  ["g", "int64", "1"] numpy scalar np.int64(1)
+  ["N", dtype, shape, "C"|"F", seed] C- or Fortran-contiguous array with seeded content (gen_np.make)
   a third element on D / S / F names a SUBCLASS the container is an instance of: ["D", items, "UDict"|"defaultdict"|"OrderedDict"],
   ["S", items, "USet"], ["F", items, "UFrozenSet"] (OrderedDict is always built in spec order: the order is part of its value)
 """
@@ -131,6 +135,8 @@ def build(spec, perm=None, slots=None, strpool=None):
         return tuple([build(s, perm, slots) for s in spec[1]])
     if k == "d":
         return decimal.Decimal(spec[1])
+    if k in "tgN":
+        return build_np(spec)
     if k in "SF":
         items = list(spec[1])
         if perm is not None:
@@ -201,6 +207,33 @@ def build(spec, perm=None, slots=None, strpool=None):
     raise AssertionError(spec)
 
 
+def build_np(spec):
+    import numpy as np
+    from vlib import gen_np
+    k = spec[0]
+    if k == "t":
+        return gen_np.np_dtype(spec[1])
+    if k == "g":
+        return getattr(np, spec[1])(spec[2] if spec[1] in ("str_", "bytes_") else (spec[2] == "True" if spec[1] == "bool_" else
+                                    (complex(spec[2]) if spec[1].startswith("complex") else (float(spec[2]) if spec[1].startswith("float") else int(spec[2])))))
+    return gen_np.make(random.Random(spec[4]), spec[1], spec[2], spec[3])[0]
+
+
+def canon_np(spec):
+    """canonical form of a numpy value: what identifies it as a VALUE (dtype with its byte order, shape, element bytes, and - as
+    joblib.hash documents - whether it is C or Fortran ordered); two specs that build equal arrays have one canonical form"""
+    import hashlib
+    v = build_np(spec)
+    k = spec[0]
+    if k == "t":
+        return "t(" + (repr(v.descr) if v.names else v.str) + ("|" + repr(v.shape) if v.subdtype else "") + ")"
+    if k == "g":
+        return "g(" + type(v).__name__ + ":" + repr(v.item()) + ")"
+    order = "C" if v.flags.c_contiguous else "F"
+    return "N(" + (repr(v.dtype.descr) if v.dtype.names else v.dtype.str) + "," + repr(v.shape) + "," + order + "," + \
+        hashlib.sha1(v.tobytes(order)).hexdigest()[:16] + ")"
+
+
 def _build_pooled(spec, perm, slots, strpool):
     k = spec[0]
     if k in "sy" or (k == "Z" and spec[1] in ("bytes", "zeros", "str")):
@@ -243,6 +276,8 @@ def canon(spec):
         return "c(" + repr(complex(float(spec[1]), float(spec[2]))) + ")"
     if k == "A":
         return "A%d(" % spec[1] + canon(spec[2]) + ")"
+    if k in "tgN":
+        return canon_np(spec)
     return k + "(" + ",".join(map(str, spec[1:])) + ")"
 
 
